@@ -86,7 +86,7 @@ LMAIN = Assumed(MAINK + "[as called by the API]", params=["direct_args"], modifi
                     "(C10/C15); ghost g_main records the last two arguments (sub-command, path) as they were at the call")
 PRES = Assumed("_ApiPresentation[construct]", returns="_ApiPresentation", fresh_result=True, pure=True, why="collects the output of the run")
 HFR = Assumed(API + "__handle_fix_results", params=["return_code", "this_presentation"], returns="PyMarkdownFixResult", fresh_result=True, pure=True,
-              raises=[Raises("PyMarkdownApiException"), Raises("AssertionError")], why="maps the exit code to a result object or an API exception")
+              raises=[Raises("PyMarkdownApiException"), Raises("AssertionError")], why="PyMarkdownApi.__handle_fix_results (own contract at the end of this file): the result carries the list of announced files, other codes raise")
 ISFILE = Assumed("os.path.isfile", params=["path"], returns="bool", pure=True, ensures=["result == (path in g_files)"],
                  why="for a path created by this call: it exists iff it has not been removed")
 OSREMOVE = Assumed("os.remove[spool]", params=["path"], pure=True, effects=["g_files.discard(path)"],
@@ -111,4 +111,17 @@ register(Contract(
     xensures={"BaseException": ["forall_val(lambda x: (x in g_files) == old(x in g_files))"]},
     raises=[Raises("PyMarkdownApiException"), Raises("PyMarkdownApiArgumentException"), Raises("OSError"), Raises("UnicodeError"), Raises("AssertionError")],
     modifies=["*", "g_files.$dict", "g_main.$list"],
+))
+
+# C10 / C16: what the API tells its caller about a fix run.  Whatever code the run ended with among the two "it worked" codes (0 and 3:
+# under the `minimal` return-code scheme a run that fixed files ends with 0), the result carries exactly the list of files the run
+# announced as fixed -- the same object the presentation collected the 'Fixed:' announcements in -- and any other code becomes an
+# exception, never a result (seeded change C10-C returned an empty list for code 0).
+_R["$fields"].types.update({"_ApiPresentation.pso": "List[str]", "_ApiPresentation.pse": "List[str]", "_ApiPresentation.files_fixed": "List[str]"})
+register(Contract(
+    key=API + "__handle_fix_results", properties=["C10", "C16", "C18"],
+    requires=["len(this_presentation.pso) == 0", "implies(return_code != 0 and return_code != 3, len(this_presentation.pse) > 0)"],
+    ensures=["return_code == 0 or return_code == 3", "result.files_fixed is this_presentation.files_fixed"],
+    raises=[Raises("PyMarkdownApiException", when="return_code != 0 and return_code != 3")],
+    modifies=[],
 ))
